@@ -110,17 +110,17 @@ class Variable(FortranObj):
     def get_type_obj(self, obj_tree):
         if self.link_obj is not None:
             return self.link_obj.get_type_obj(obj_tree)
-        if (self.type_obj is None) and (self.parent is not None):
+        if self.parent is not None:
             type_name = get_paren_substring(self.get_desc(no_link=True))
             if type_name is not None:
                 search_scope = self.parent
                 if search_scope.get_type() == CLASS_TYPE_ID:
                     search_scope = search_scope.parent
                 if search_scope is not None:
+                    # Looked up on every call: the file that defines the type may
+                    # have been edited, renamed or removed since the last one
                     type_name = type_name.strip().lower()
-                    type_obj = find_in_scope(search_scope, type_name, obj_tree)
-                    if type_obj is not None:
-                        self.type_obj = type_obj
+                    self.type_obj = find_in_scope(search_scope, type_name, obj_tree)
         return self.type_obj
 
     # XXX: unused delete or use for associate blocks
